@@ -130,10 +130,16 @@ def run(tier):
         for pos in POSITIONS:
             doc, holder_path, wire = op_for(pos, k)
             mods.append({"k": k, "t": t, "pos": pos, "doc": doc, "holder": holder_path, "wire": wire})
-    resps = generate([gen_request(sdl, gql.render_doc(m["doc"]), inspect=True) for m in mods])
+    # the same modules from an SDL that spells out the built-in scalar (`scalar ID`): still the ID type
+    for k, t in enumerate(exprs):
+        if k % 2 == 0 or tier == "thorough":
+            for pos in POSITIONS:
+                doc, holder_path, wire = op_for(pos, k)
+                mods.append({"k": k, "t": t, "pos": pos, "doc": doc, "holder": holder_path, "wire": wire, "declared": True})
+    resps = generate([gen_request(("scalar ID\nscalar String\n" + sdl) if m.get("declared") else sdl, gql.render_doc(m["doc"]), inspect=True) for m in mods])
     farm = Farm("c16")
     for m, r in zip(mods, resps):
-        label = {"type_expr": gql.type_str(m["t"]), "position": m["pos"], "query": gql.render_doc(m["doc"])}
+        label = {"type_expr": gql.type_str(m["t"]), "position": m["pos"], "query": gql.render_doc(m["doc"]), "sdl_declares_scalar_ID": bool(m.get("declared"))}
         m["label"] = label
         if r["status"] != "ok":
             rep.violation("generation_failed", label, r.get("msg"))
@@ -163,7 +169,7 @@ def run(tier):
         if not cid:
             continue
         c = farm.cases[cid]
-        distinct.add((gql.type_str(m["t"]), m["pos"]))
+        distinct.add((gql.type_str(m["t"]), m["pos"], bool(m.get("declared"))))
         sigs = set()
         if depth_of(m["t"]) > 0:
             sigs.add("id_field_with_list_qualifier")
